@@ -194,6 +194,22 @@ def inv_jsonld0(data, prefix_map: dict[str, str], _i, _xs):
             and all(t[0] in prefix_map for t in _xs[:_i] if t[0] != "" and not t[0].startswith("@")))
 
 
+@lemma("C13.loader_keyword_defaults", props=["C13", "C04"], bounded_only="the contracts of the loaders name the forwarded keyword arguments; that leaving them out means delimiter=':' and strict=True is the signature of Converter.__init__, exercised here")
+def l_c13_loader_defaults(pm: dict):
+    def outcome(f):
+        try:
+            return ("ok", conv_state(f()))
+        except ValueError as e:
+            return ("raise", type(e).__name__)
+    prio = {k: [v] for k, v in pm.items()}
+    rev = {v: k for k, v in pm.items()}
+    recs = [dict(prefix=k, uri_prefix=v) for k, v in pm.items()]
+    for loader_, arg in ((Converter.from_prefix_map, pm), (Converter.from_priority_prefix_map, prio), (Converter.from_reverse_prefix_map, rev),
+                         (Converter.from_extended_prefix_map, recs), (Converter.from_jsonld, {"@context": pm})):
+        assert outcome(lambda: loader_(arg)) == outcome(lambda: loader_(arg, delimiter=":", strict=True))
+        assert outcome(lambda: loader_(arg, strict=False)) == outcome(lambda: loader_(arg, delimiter=":", strict=False))
+
+
 @lemma("C13.prefix_map_denotes", props=["C13"], bounded_only="constructor wiring through pydantic Record construction and dict iteration")
 def l_c13_prefix_map(pm: dict):
     try:
